@@ -183,6 +183,18 @@ def check_c12(prog, rep, tier, cfg):
         for f in ("indentations_before", "continuations_before"):
             rd = prog.field_accesses(LANG + "FormattingData", f, within={tb.npath})
             rep.check(len(rd) == 1 and rd[0][3] == "read", R, "uses-own-" + f, "try_rewrite_string does not read %s of its `indent` parameter exactly once" % f)
+    # ---------------------------------------------------------------- C12.f the re-indenter writes with the settings the reconstructor emits with
+    import layout
+    layout.same_settings_rule(prog, rep, "C12.f")
+    # the StringFormatter's settings are the wrapper's own (no second settings value inside core)
+    mk = [s for b2 in prog.bodies.values() if b2.crate.startswith("pasfmt") for _, _, s in b2.stmts()
+          if s["k"] == "assign" and s["rv"]["k"] == "aggregate" and norm(s["rv"].get("adt", "")).endswith("multiline_strings::StringFormatter")]
+    okm = len(mk) == 1
+    if okm:
+        # field recon_settings <- self.recon_settings of the OptimisingLineFormatter
+        fields = dict(zip(mk[0]["rv"]["fields"], mk[0]["rv"]["ops"]))
+        okm = "recon_settings" in fields
+    rep.check(okm, "C12.f", "one-StringFormatter", "StringFormatter is constructed %d times" % len(mk), instance={"constructed": len(mk)})
     # ---------------------------------------------------------------- C12.e terminator sets agree
     R = "C12.e"
     from lexer_rules import consts_in
